@@ -345,6 +345,18 @@ pub fn run(data: &[u8], ctx: &mut Ctx) -> Outcome {
         }
         ctx.nontrivial = true;
     }
+    // --- independent saltings on different threads (one case in sixteen, decided by the envelope): two
+    // fresh threads decode the same bytes and salt them once each
+    if crate::src::fnv(&e.to_cbor_data()) % 16 == 0 {
+        let bytes = e.to_cbor_data();
+        let spawn = |b: Vec<u8>| std::thread::spawn(move || Envelope::try_from_cbor_data(b).map(|x| (x.add_salt().to_cbor_data(), x.add_assertion_salted("t", 1, true).to_cbor_data())).map_err(|x| x.to_string()));
+        let (h1, h2) = (spawn(bytes.clone()), spawn(bytes.clone()));
+        if let (Ok(Ok(a)), Ok(Ok(b))) = (h1.join(), h2.join()) {
+            ctx.class("salted-on-two-fresh-threads");
+            check!(ctx, a.0 != b.0, "decorrelation", "C17/add_salt/across-threads", "add_salt of equal envelopes on two fresh threads produced the same salt");
+            check!(ctx, a.1 != b.1, "decorrelation", "C17/add_assertion_salted/across-threads", "a salted add of equal assertions on two fresh threads produced the same salt");
+        }
+    }
     let _ = e.digest();
     if size >= 200 || op >= 5 {
         ctx.nontrivial = true;
